@@ -25,6 +25,7 @@ RULE = (
     'Non-trivial: >=1 alias and >=1 equal-but-distinct pair, or a Box, or depth >= 50. '
     'Distinct = distinct SHA-1 of the recipe JSON.'
 )
+RULE += (' ' + 'Rounds 3-5: **kwargs callables with a rejected update_callable in their history; constant tuples referenced twice (same tuple object => same built object); a node type registered after a build already saw it unregistered.')
 ASSUMPTIONS = [
     'reference evaluator refmodel.ref_build (identity memo, pins keys)',
     'id reuse by the allocator is made likely by Box temporaries, not certain',
